@@ -22,7 +22,8 @@ EXPLANATION = (
     "or its template is algebraically the law the format class uses (symbols unified through the registry names), including grain-delegated types; "
     "R6 export wiring: Network.export writes reactions.naunet in format 'naunet' on every path that continues to the configuration and sources, NetworkConfiguration records exactly that file/format and exports "
     "binding energies / yields of every surface species, and 'naunet' maps to the class whose __format__ wrote the file; R10 BaseConfiguration.content writes each "
-    "of those tables (binding_energy, photon_yield, rate_modifier, ode_modifier, files, formats) whole -- the attribute, a copy, or an unfiltered key-by-key re-spelling.")
+    "of those tables (binding_energy, photon_yield, rate_modifier, ode_modifier, files, formats) whole -- the attribute, a copy, or an unfiltered key-by-key re-spelling; "
+    "R11 a format class whose law lives in state the exchange format cannot store (KROME's explicit rate text) exports only type codes the native class refuses.")
 ASSUMPTIONS = [
     "equality 'to printed precision' of particular numbers is a property of Python's float formatting, not decided",
     "blank-line handling of the reader is C07.R1",
@@ -48,6 +49,7 @@ def check(ctx):
     _r4(ctx, pkg)
     _r5(ctx, rm, pkg)
     _r6(ctx, pkg)
+    _explicit_law_refused(ctx, rm, pkg)
     # the exported configuration carries the network's modifier tables whole (shared with C13.R7): a modifier dropped on the way into
     # naunet_config.toml makes the re-rendered project compute the unmodified law
     _content_tables_whole(ctx, pkg, rm)
@@ -554,6 +556,96 @@ def _grain_sibling(ctx, rm, regs, F, tval, key, where):
         ctx.ok("R5", key, where, "grain-delegated: the symbols read from the reaction are the same" + (f" (or refused: {sorted(refused)} not registered natively)" if refused else ""))
 
 
+def _explicit_law_refused(ctx, rm, pkg):
+    """R11: a format class whose rate law is NOT a function of what the exchange format stores (type code, alpha, beta, gamma, window) -- its
+    rateexpr reads state of its own that Reaction.__format__('naunet') does not write, like KROME's explicit rate text -- must export a type
+    code the native class REFUSES: every value it gives `reaction_type` (its own assignments, a reaction_type= handed to the base constructor,
+    else the base default) makes Reaction.rateexpr raise.  Otherwise the exported project re-renders without an error and computes the
+    native law of that code from coefficients the class never set (all rates 0.0)."""
+    natv = rm.variants("Reaction")
+    n = 0
+    for F in sorted(pkg.subclasses("Reaction")):
+        ci = pkg.classes.get(F)
+        if F in REF or "." in F or ci is None or not ci.file.startswith("naunet/reactions/"):
+            continue
+        dc, fn = pkg.resolve(F, "rateexpr")
+        if fn is None or dc == "Reaction":
+            continue
+        own_methods = [m_ for c_ in pkg.mro(F) if c_ in pkg.classes and c_ != "Reaction" and "Reaction" in pkg.mro(c_) for m_ in pkg.classes[c_].methods.values()]
+        own_state = {t.attr for m_ in own_methods for a_ in ast.walk(m_) if isinstance(a_, (ast.Assign, ast.AnnAssign, ast.AugAssign))
+                     for t in (a_.targets if isinstance(a_, ast.Assign) else [a_.target]) if isinstance(t, ast.Attribute) and isinstance(t.value, ast.Name) and t.value.id == "self"}
+        reads = {a_.attr for a_ in ast.walk(fn) if isinstance(a_, ast.Attribute) and isinstance(a_.ctx, ast.Load) and isinstance(a_.value, ast.Name) and a_.value.id == "self"}
+        carried = sorted((reads & own_state) - set(WRITER_FIELDS) - {"reactants", "products"})
+        if not carried:
+            continue
+        n += 1
+        where = (ci.file, fn.lineno)
+        key = f"{F}: law carried by {'/'.join(carried)}, exported type code"
+        # the values the class gives reaction_type
+        vals, opaque = [], []
+        for c_ in pkg.mro(F):
+            if c_ not in pkg.classes or c_ == "Reaction" or "Reaction" not in pkg.mro(c_):
+                continue
+            file_ = pkg.classes[c_].file
+            for mname, m_ in pkg.classes[c_].methods.items():
+                if not any(isinstance(a_, ast.Attribute) and a_.attr == "reaction_type" and isinstance(a_.ctx, ast.Store) for a_ in ast.walk(m_)) \
+                        and not any(isinstance(a_, ast.keyword) and a_.arg == "reaction_type" for a_ in ast.walk(m_)) \
+                        and not any(isinstance(a_, ast.Call) and isinstance(a_.func, ast.Name) and a_.func.id == "setattr" for a_ in ast.walk(m_)):
+                    continue
+                fl = Flow(m_, file_, consts=rm.module_consts(file_), resolver=lambda name, c_=c_: pkg.resolve(c_, name)[1] if name.startswith("_") and not name.startswith("__") else None)
+                for f in fl.facts:
+                    if f.kind == "attrstore" and f.target == "reaction_type" and f.extra.get("obj") == SELF:
+                        vals.append((simp(f.value), (file_, f.line)))
+                    elif f.kind == "call" and f.value is not None and f.value[0] == "meth" and f.value[2] == "__init__":
+                        vals += [(simp(v_), (file_, f.line)) for k_, v_ in f.value[4] if k_ == "reaction_type"]
+                    elif f.kind == "call" and f.value is not None and f.value[0] == "call" and f.value[1] == ("global", "setattr"):
+                        opaque.append(f"{c_}.{mname}: {show(f.value)[:60]}")
+        if not vals:
+            # nothing of its own: the base constructor's default
+            init = pkg.method("Reaction", "__init__")
+            a = init.args
+            dflt = dict(zip([x.arg for x in a.args][len(a.args) - len(a.defaults):], a.defaults)).get("reaction_type")
+            if dflt is not None:
+                vals.append((simp(Flow(ast.parse("def _():\n    pass").body[0], RFILE).ev(dflt)), (RFILE, init.lineno)))
+        if opaque or not vals:
+            ctx.unrec("R11", key, where, f"cannot see which type code {F} exports: " + (opaque[0] if opaque else "no assignment of reaction_type and no default in Reaction.__init__"))
+            continue
+        bad, und = [], []
+        for v_, w_ in vals:
+            leaves = []
+
+            def split(x):
+                if x[0] in ("phi", "ifexp") and len(x) == 4:
+                    split(x[2]), split(x[3])
+                else:
+                    leaves.append(x)
+            split(v_)
+            for leaf in leaves:
+                tval = rm.enum_of_ir(F, leaf)
+                if tval is None:
+                    und.append(show(leaf)[:60])
+                    continue
+                narms = arms_for(rm, "Reaction", natv, "reaction_type", tval)
+                nk = {a_.kind for a_, _ in narms}
+                open_ = [show(c)[:60] for _, extra in narms for c, _p in extra if not _about_law(c)]
+                if nk == {"raise"} or not narms:
+                    continue
+                if open_ and "raise" in nk:
+                    und.append(f"native dispatch for type {tval}: {open_[0]}")
+                else:
+                    bad.append((show(leaf), tval, w_, sorted(nk)))
+        if bad:
+            leaf, tval, w_, nk = bad[0]
+            ctx.bad("R11", key, w_, f"{F} computes its rate from {'/'.join(carried)}, which the native exchange format cannot store, but gives the reaction the type {leaf} ({tval}), which the "
+                    f"native class accepts ({nk}): the exported project re-renders WITHOUT an error and evaluates the native law of type {tval} with the coefficients {F} never set",
+                    expected="a type code Reaction.rateexpr refuses (ReactionType.UNKNOWN)", found=leaf)
+        elif und:
+            ctx.unrec("R11", key, where, f"cannot resolve the type code {F} exports: {und[0]}")
+        else:
+            ctx.ok("R11", key, where, f"every type code {F} exports ({', '.join(sorted({show(v_)[:40] for v_, _ in vals}))}) is refused by the native class")
+    ctx.floor("R11", "format classes whose law the exchange format cannot carry", n, 1)
+
+
 NET_EDITS = {"remove_reaction", "add_reaction", "add_reaction_from_file", "_add_reaction", "reindex"}
 
 
@@ -1038,3 +1130,20 @@ def _rd_record_dict(key):
 BENIGN += [dict(_rd_zip_fields('("alpha", "beta", "gamma", "temp_min", "temp_max")'), name="reader-floats-zipped-with-record-slice"), dict(_rd_record_dict("beta"), name="reader-column-from-keyed-record")]
 MUTANTS += [dict(_rd_zip_fields('("alpha", "beta", "gamma", "temp_max", "temp_min")'), name="reader-zipped-slice-bounds-swapped", rules=["R1"]),
             dict(_rd_record_dict("gamma"), name="reader-keyed-record-wrong-column", rules=["R1"])]
+
+# ---- rules added for the round-6 seeds ----
+KR = "naunet/reactions/kromereaction.py"
+_KR_IMPORT = "from .reaction import Reaction\nfrom .converter import ExpressionConverter\n"
+_KR_SUPER = "        super().__init__(react_string=react_string)\n\n        self.unregister(\"dust_temperature\")\n"
+
+
+def _krome_type(member):
+    return [{"file": KR, "old": _KR_IMPORT, "new": "from ..reactiontype import ReactionType\n" + _KR_IMPORT},
+            {"file": KR, "old": _KR_SUPER, "new": "        super().__init__(react_string=react_string)\n        self.reaction_type = ReactionType." + member + "\n\n        self.unregister(\"dust_temperature\")\n"}]
+
+
+MUTANTS.append({"name": "krome-reactions-tagged-twobody", "edits": _krome_type("GAS_TWOBODY"), "rules": ["R11"]})
+MUTANTS.append({"name": "krome-type-handed-to-base-constructor", "edits": [{"file": KR, "old": _KR_IMPORT, "new": "from ..reactiontype import ReactionType\n" + _KR_IMPORT},
+                {"file": KR, "old": "        super().__init__(react_string=react_string)\n\n        self.unregister(\"dust_temperature\")\n",
+                 "new": "        super().__init__(react_string=react_string, reaction_type=ReactionType.GAS_COSMICRAY)\n\n        self.unregister(\"dust_temperature\")\n"}], "rules": ["R11"]})
+BENIGN.append({"name": "krome-type-explicitly-unknown", "edits": _krome_type("UNKNOWN")})
